@@ -8,7 +8,8 @@ for d in sorted(glob.glob(os.path.join(V, "seeded", "*", "meta.json"))):
     rows.append((name, m["needs_to_manifest"], m["caught_by"]))
 missed = sum(1 for r in rows if r[2].startswith("MISSED"))
 never = sum(1 for r in rows if r[2].startswith("NOT CAUGHT"))
-head = "%d seeded changes; %d were caught by the checks as they stood when the change arrived, %d were missed at first and led to a stronger check (MISSED ... caught after ...), %d is not caught (a documented limit).\n\n" % (len(rows), len(rows) - missed - never, missed, never)
+retired = sum(1 for r in rows if r[2].startswith("RETIRED"))
+head = "%d seeded changes; %d were caught by the checks as they stood when the change arrived, %d were missed at first and led to a stronger check (MISSED ... caught after ...), %d not caught (documented limits). " % (len(rows), len(rows) - missed - never - retired, missed, never) + ("%d retired (made harmless by a later fix: see its row).\n\n" % retired if retired else "")
 tbl = head + "| Seeded change | Needs, to manifest | Caught by |\n|---|---|---|\n" + "\n".join("| %s | %s | %s |" % (a, b.replace("|", "/"), c.replace("|", "/")) for a, b, c in rows) + "\n"
 p = os.path.join(V, "DESIGN.md")
 s = open(p).read()
